@@ -50,6 +50,9 @@ def main():
                         results.append((pid, m['name'], 'pattern-not-found', None))
                         continue
                     new = src.replace(m['old'], m['new'], m.get('count', 1))
+                    for extra in m.get('also', []):
+                        assert extra['old'] in new, 'secondary pattern not found'
+                        new = new.replace(extra['old'], extra['new'], 1)
                     open(path, 'w').write(new)
                 suite = None
                 if a.suite:
